@@ -19,6 +19,7 @@ import warnings
 sys.path.insert(0, os.path.dirname(os.path.abspath(__file__)))
 import vcommon as vc  # noqa: E402
 import regen  # noqa: E402
+import pins  # noqa: E402
 
 warnings.filterwarnings('ignore')
 
@@ -128,6 +129,21 @@ def run_check(prop, tier, seed, replay=None):
     mod = importlib.import_module(f'props.{prop.lower()}')
     if replay:
         return run_replay(ctx, mod, replay)
+    # 0. source pins: has the code this property is anchored in changed since the models were written?
+    try:
+        anchors = set()
+        for line in open(os.path.join(vc.VERIF, 'properties.jsonl')):
+            pr = json.loads(line)
+            if pr['id'] == prop:
+                anchors = set(pr['anchors']['files'])
+        moved = pins.changed(vc.REPO, anchors)
+    except Exception:  # noqa
+        moved = []
+    if moved:
+        ctx.notes.append('source units changed since pins.json: ' + ', '.join(moved[:12]) +
+                         ' -> correspondence at thorough scale and deep search (not a violation by itself)')
+        ctx.scale = max(ctx.scale, 6)
+        ctx.pins_moved = moved
     # 1. regenerate translated model from the working tree
     for r in regen.regen_all(vc.REPO):
         if r['target'] in getattr(mod, 'GEN_TARGETS', ()):
@@ -181,8 +197,8 @@ def run_check(prop, tier, seed, replay=None):
     try:
         mod.run(ctx, lean)
         # 5. failing-input search: always in thorough; in quick when something is broken
-        if ctx.broken() or tier == 'thorough' or getattr(mod, 'ALWAYS_SEARCH', False):
-            deep = bool(ctx.broken()) or tier == 'thorough'
+        if ctx.broken() or tier == 'thorough' or getattr(mod, 'ALWAYS_SEARCH', False) or getattr(ctx, 'pins_moved', None):
+            deep = bool(ctx.broken()) or tier == 'thorough' or bool(getattr(ctx, 'pins_moved', None))
             mod.search(ctx, deep)
     except Exception:
         ctx.ob('harness:exception', False, 'tie', traceback.format_exc()[-900:])
